@@ -64,6 +64,11 @@ fn kinds_name(k: Kind) -> &'static str {
 /// Atomicity family (C07): every chain of rule kinds k1 -> k2 (-> k3) around a sequence and a
 /// repetition, for one WHITESPACE/COMMENT combination.
 pub fn atomicity_grammar(ws: bool, comment: bool, depth3: bool) -> String {
+    atomicity_grammar_with(ws, comment, depth3, false)
+}
+
+/// `block`: COMMENT is a block comment (an opener can occur inside a comment)
+pub fn atomicity_grammar_with(ws: bool, comment: bool, depth3: bool, block: bool) -> String {
     let mut out = String::new();
     // leaves per kind: a sequence and a repetition
     for k in Kind::ALL {
@@ -91,7 +96,9 @@ pub fn atomicity_grammar(ws: bool, comment: bool, depth3: bool) -> String {
     if ws {
         out.push_str("WHITESPACE = _{ \" \" }\n");
     }
-    if comment {
+    if comment && block {
+        out.push_str("COMMENT = _{ \"/*\" ~ (!\"*/\" ~ ANY)* ~ \"*/\" }\n");
+    } else if comment {
         out.push_str("COMMENT = _{ \"#\" ~ (!\"#\" ~ ANY)* ~ \"#\" }\n");
     }
     out
@@ -193,6 +200,10 @@ pub fn build(seed: u64, tier: Tier) -> Corpus {
     for (ws, cm) in [(false, false), (true, false), (false, true), (true, true)] {
         let text = atomicity_grammar(ws, cm, tier == Tier::Thorough);
         specs.push(Spec::new(&format!("atom_{}{}", ws as u8, cm as u8), "atomicity", &text));
+    }
+    for (ws, cm) in [(false, true), (true, true)] {
+        let text = atomicity_grammar_with(ws, cm, false, true);
+        specs.push(Spec::new(&format!("atomb_{}{}", ws as u8, cm as u8), "atomicity", &text));
     }
     let (lo, hi) = tier.pick((-3, 3), (-6, 6));
     specs.push(Spec::new("slice", "slice", &slice_grammar(lo, hi)));
